@@ -12,14 +12,14 @@ T = {
    "As C01 for standard semantics: earliest end, longest at that end, first supplied; haystack length unbounded at table level; iterator and spans via bounded-exhaustive replay.","as C01","2, 7"),
  "C03": (E1,"model_checking","explicit-state exploration of every reachable (state, byte) of each representation: full match list vs the suffix set of the reference; stepwise + iterator overlapping replay incl. calls past the end",
    "Every reachable state's whole match list (content, order, multiplicity) is compared with the reference on the closed product, so overlapping search yields each occurrence exactly once in end order for haystacks of every length; the resumable search state machine is bound by stepwise replay (until None + 3 further calls) on witnesses and all short haystacks x spans.","as C01","2, 7"),
- "C04": (E1,"model_checking","lock-step product exploration (bisimulation up to search-observable behaviour) of all 15 representations of the same patterns, no reference involved; differential replay of all search APIs incl. top-level automatic/explicit kinds",
+ "C04": (E1,"model_checking","lock-step product exploration (bisimulation up to search-observable behaviour) of all low-level representations of the same patterns (15 table-level ones, own-builder and independent-depth variants, plain constructors), no reference involved; differential replay of all search APIs incl. top-level automatic/explicit kinds",
    "The joint reachable state space of nNFA/cNFA/DFA under every dense-depth, byte-class and start-kind option is closed under all 256 bytes (unanchored and anchored); in every joint state what a search can observe must agree. Decides equality for haystacks of every length per pattern list; API-level equality on witnesses and bounded haystacks x spans x anchoring.",
    "only search-observable behaviour is compared (match lists, recorded match, API results), never state numbering, is_special/is_start or the moment of entering the dead state","2, 7"),
  "C05": (E3,"exploration","bounded-exhaustive enumeration of haystack templates (offset x tail length x span x core) per prefilter variant, differential against the same searcher with the prefilter disabled",
    "Every prefilter variant (memmem, start bytes 1-3, rare bytes 1-3, packed) is exercised by several families; every core position modulo the vector width, every tail length, trigger bytes at every small distance before a match, restricted spans, anchored and case-insensitive searchers, single/iterator/overlapping searches. A prefilter that skips, invents or alters a match anywhere in that space is reported.",
    "oracle = same searcher with prefilter(false); earliest searches compared on existence only (C14 specifies which occurrence only up to 'ends no later')","4, 7"),
  "C06": (E3,"exploration","bounded-exhaustive enumeration (variant x family x core x filler x offset x tail x span) of the packed searchers against the naive leftmost reference",
-   "All 13 algorithm variants available on this CPU (Rabin-Karp, slim Teddy 128/256, fat Teddy, fingerprints 1-4) x both match kinds x 30 colliding families; every offset 0..2V+5 and tail length, haystacks shorter than a vector, matches straddling windows and in the overlapping final window, near misses for the tail compare; find_in on span forms and find_iter.",
+   "All 13 algorithm variants available on this CPU (Rabin-Karp, slim Teddy 128/256, fat Teddy, fingerprints 1-4) x both match kinds x 43 colliding families (incl. shortest pattern 15..36 and 64..200 bytes) plus stray templates, 2^16-byte patterns and the construction contract; every offset 0..2V+5 and tail length, haystacks shorter than a vector, matches straddling windows and in the overlapping final window, near misses for the tail compare; find_in on span forms and find_iter.",
    "occurrences of filler^i.core.filler^j are those of the core shifted (no filler byte occurs in a pattern; lemma cross-checked against the fully naive reference on the small families)","4, 7"),
  "C07": (E2,"model_checking","stateless exhaustive exploration (choice-prefix DFS with replay) of every read-size schedule of the real StreamFindIter, over streams, roll-buffer capacities (hook H1) and automaton kinds; deviation-bounded for long streams",
    "Every way a reader can split every stream up to the full-bound length into reads, for capacities longest pattern+1..8x, is executed on the real code and compared with the in-memory iterator; long streams with a bounded number of short reads exercise several rolls and matches straddling read and roll boundaries.",
@@ -48,7 +48,7 @@ T = {
  "C16": (E1,"model_checking","exhaustive exploration of every state reachable via next_state x 256 bytes x both anchoring arguments of each low-level automaton (contract predicates); documented caller-written loop vs built-in search replay",
    "Complete per automaton: no panic, dead absorbing, dead/match => special, special => dead|match|start, match states list >= 1 valid id, start_state fails exactly for unsupported anchoring; the recipe from the trait documentation equals try_find on all short haystacks x spans x anchoring.","recipe = the documented one plus the anchored start filter of the built-in loop","2, 7"),
  "C17": (E5,"model_checking","stateless exploration of thread interleavings at hook-H3 scheduling points with a token-passing scheduler over real OS threads (preemption-bounded choice-prefix DFS, replayed), plus exhaustive operation histories and cursor interleavings; oracle = result on a never-used searcher",
-   "All interleavings with <= 2 (thorough 3) preemptions of 2-3 concurrent operations on a shared searcher or clone, all operation sequences up to depth 3 (4) over 17 operations incl. > 64 KiB inputs, all interleavings of three live cursors. Scheduler completeness (C(14,7)=3432) and sensitivity (racy fixture found first at bound 1) self-tested every run.",
+   "All interleavings with <= 2 (thorough 3) preemptions of 2-3 concurrent operations on a shared searcher or clone, all operation sequences up to depth 3 (4) over 21 operations (13 searchers) incl. > 64 KiB inputs, hand-over of a paused overlapping search to a clone, all interleavings of four live cursors. Scheduler completeness (C(14,7)=3432) and sensitivity (racy fixture found first at bound 1) self-tested every run.",
    "interleavings at hook granularity, not instruction granularity; no claim about 'no interior mutability' as a structural fact","6, 7"),
  "C18": (E2,"fault_enumeration","exhaustive fault injection: for every read schedule of every stream, an injected read error at every read call index and a writer failing after every number of accepted bytes (with and without short writes)",
    "Every fault position over every schedule within the bounds of C07: no panic, exactly one error surfaced, matches before it are a prefix of the fault-free sequence, bytes written a prefix of the fault-free output, end of stream only after the reader returned Ok(0).",
@@ -57,7 +57,7 @@ T = {
    "No positive cycle and longest path <= 0 from the start state => for every haystack of every length, at every prefix, failure traversals <= transitions; positions of transitions strictly increase inside the span for every API call on witnesses and short haystacks (<= 1 transition per byte); DFA follows none. Adversarial families a^k b, nested suffixes, case-insensitive tries included.",
    "counts transitions/failure traversals/cursor monotonicity, not wall-clock time nor memchr work inside prefilters","2, 7, 8"),
  "C20": (E4,"exploration","complete enumeration of shape families x the entire builder-option product (1152 combinations); metadata mirror + reference identifiers",
-   "Every combination of match kind, kind, start kind, folding, prefilter, dense depth and byte classes is really built for ~30 shape families (no patterns ... 1000/5000 patterns, all 256 bytes, 300-byte patterns); kind returned == requested; counts, lengths, kinds mirrored; pattern identifiers are input positions.",
+   "Every combination of match kind, kind, start kind, folding, prefilter, dense depth and byte classes is really built for ~90 shape families (no patterns ... 1000/3000/5000 patterns, all 256 bytes, pattern lengths around 256 and 2^16, 16..33 patterns with a one-byte pattern); kind returned == requested; counts, lengths, kinds mirrored; pattern identifiers are input positions.",
    "documented size limits are not approached","5, 7"),
 }
 checks=[]
